@@ -455,6 +455,20 @@ fn name_case(s: &str, rep: &mut Report) -> bool {
             }
             // print and parse again
             let printed = format!("{}", n);
+            // a width / fill in the format spec pads the whole name (on the right), nothing else
+            let nchars = printed.chars().count();
+            for (spec, got) in [("{:1}", format!("{:1}", n)), ("{:13}", format!("{:13}", n)), ("{:*<14}", format!("{:*<14}", n))] {
+                let (width, fill) = match spec {
+                    "{:1}" => (1usize, ' '),
+                    "{:13}" => (13, ' '),
+                    _ => (14, '*'),
+                };
+                let want: String = printed.chars().chain(std::iter::repeat(fill).take(width.saturating_sub(nchars))).collect();
+                if got != want {
+                    rep.violate(v("C18.name-reparse", "Display with width", spec, format!("{:?} printed with {} gives {:?}, expected {:?}", s, spec, got, want), J::obj().set("name", s)));
+                    return true;
+                }
+            }
             match ShortFileName::create_from_str(&printed) {
                 Ok(n2) if sfn_bytes(&n2) == b => false,
                 other => {
